@@ -4,6 +4,7 @@ import (
 	"context"
 	"errors"
 
+	"github.com/shogo82148/goat/jwa"
 	"github.com/shogo82148/goat/jwk"
 	"github.com/shogo82148/goat/sig"
 )
@@ -26,7 +27,12 @@ type JWKKeyFinder struct {
 }
 
 func (f *JWKKeyFinder) FindKey(ctx context.Context, protected, unprotected *Header) (key sig.SigningKey, err error) {
-	alg := protected.Algorithm()
+	var alg jwa.SignatureAlgorithm
+	if protected != nil {
+		alg = protected.Algorithm()
+	} else if unprotected != nil {
+		alg = unprotected.Algorithm()
+	}
 	if !alg.Available() {
 		return nil, errors.New("jws: algorithm not available")
 	}
